@@ -417,7 +417,7 @@ pub struct Gen<'a> {
     pub conservative: bool,
 }
 
-const WORDS: [&str; 8] = ["", "a", "hello", "ünï", "2020-01-01T00:00:00Z", "00000000-0000-0000-0000-000000000000", "127.0.0.1", "a much longer string value than the others"];
+const WORDS: [&str; 10] = ["", "a", "hello", "ünï", "2020-01-01T00:00:00Z", "00000000-0000-0000-0000-000000000000", "127.0.0.1", "a much longer string value than the others", "two\nlines", "del\u{7f}ete"];
 
 impl<'a> Gen<'a> {
     fn resolve(&self, r: &str) -> Option<&'a Value> {
@@ -434,7 +434,7 @@ impl<'a> Gen<'a> {
             0 => Value::Null,
             1 => json!(self.st.coin()),
             2 => json!(self.st.below(20) as i64 - 5),
-            3 => json!(WORDS[self.st.below(8) as usize]),
+            3 => json!(WORDS[self.st.below(10) as usize]),
             4 => json!((self.st.below(1000) as f64) / 8.0),
             5 => Value::Array((0..self.st.below(3)).map(|_| self.arbitrary(depth + 1)).collect()),
             _ => {
@@ -599,7 +599,7 @@ impl<'a> Gen<'a> {
                                 ["abc", "ABC", "123", "a-1", "", "x", "123-45", "a@b.c", "http://a.b/c"][self.st.below(9) as usize].to_string()
                             }
                         } else {
-                            WORDS[self.st.below(8) as usize].to_string()
+                            WORDS[self.st.below(10) as usize].to_string()
                         }
                     }
                 };
